@@ -1421,6 +1421,9 @@ impl LpgStore {
             index.resize(label_id as usize + 1, FxHashMap::default());
         }
         index[label_id as usize].insert(node_id, ());
+        // Release the label index before taking the node table: delete_node locks
+        // them in the opposite order.
+        drop(index);
 
         // Update label count in node record
         if let Some(chain) = self.nodes.write().get_mut(&node_id)
@@ -1529,6 +1532,9 @@ impl LpgStore {
         if (label_id as usize) < index.len() {
             index[label_id as usize].remove(&node_id);
         }
+        // Release the label index before taking the node table: delete_node locks
+        // them in the opposite order.
+        drop(index);
 
         // Update label count in node record
         if let Some(chain) = self.nodes.write().get_mut(&node_id)
